@@ -449,8 +449,19 @@ def alone_check(desc, tid):
 # ---------------------------------------------------------------------------
 # assembly correspondence: real fj / RJ vs the model on Float
 # ---------------------------------------------------------------------------
+def rj_cases(desc, rng):
+    """request lines and real values for every sub-network of a fresh (unsolved) reduced network"""
+    net, _ = make_network(desc)
+    out = []
+    for sub in net.reduce_graph():
+        sub.i = len(desc.get("times", TIMES)) - 1
+        sub.dmap, sub.free, sub.forces, sub.fixed, sub.fixed_displacements = sub.dof_maps(sub.i)
+        out.append(rj_case(sub, rng))
+    return out
+
+
 def rj_case(sub, rng):
-    """one request line and the real values for a solved sub-network"""
+    """one request line and the real values for a sub-network with its dof maps set"""
     n = len(sub.nodes)
     dall = np.array([rng.uniform(-1e-2, 1e-2) for _ in range(n)])
     dall[sub.dmap[sub.fixed]] = sub.fixed_displacements
@@ -640,9 +651,10 @@ def gen_desc(rng, letters, ntubes, types=None):
 
 def run(ctx):
     ctx.rule = ("(T/S) every option assignment in {disconnect, rigid, numeric}^(1+P) x every tube count in "
-                "{1,2,3}^P for P<=2 (thorough: P<=3), numeric options cycling through float/int/np.float64/"
-                "np.int64 with random values, random stub-tube stiffness and thermal growth; plus random "
-                "assignments with 0..4 tubes per panel and P<=5; (G) random multigraphs with 2-6 nodes; "
+                "{1,2,3}^P for P<=2 (thorough: P<=3; quick: 150 random P=3 cases), numeric options cycling "
+                "through float/int/np.float64/np.int64 with random values, random stub-tube stiffness and "
+                "thermal growth; plus random assignments with 0..4 tubes per panel and P<=5; "
+                "(G) random multigraphs with 2-6 nodes and up to 7 edges; "
                 "(A) one random displacement vector per reduced component; (F) all 27 assignments, 2 panels x "
                 "1 FEM tube. non-trivial = at least one rigid or disconnect option; distinct = distinct "
                 "(assignment, tube counts, numeric types)")
@@ -670,7 +682,12 @@ def run(ctx):
                     tcount += (l == "s")
                 descs.append(("exhaustive", gen_desc(rng, letters, ntubes, types)))
     n_exh = len(descs)
-    for _ in range(60 if ctx.quick() else 600):
+    if ctx.quick():
+        # a sample of the P = 3 assignments (thorough does all of them)
+        for _ in range(150):
+            letters = [rng.choice("drs") for _ in range(4)]
+            descs.append(("sampleP3", gen_desc(rng, letters, [rng.randint(1, 3) for _ in range(3)])))
+    for _ in range(100 if ctx.quick() else 600):
         P = rng.randint(1, 5)
         ntubes = [rng.randint(0, 4) for _ in range(P)]
         if sum(ntubes) == 0:
@@ -701,7 +718,7 @@ def run(ctx):
     ctx.extra["topology_exhaustive_cases"] = n_exh
 
     # ---- (G) generic multigraphs -------------------------------------------
-    gcases = [generic_case(rng) for _ in range(400 if ctx.quick() else 4000)]
+    gcases = [generic_case(rng) for _ in range(1000 if ctx.quick() else 5000)]
     ganswers = drv.ask([generic_line(c) for c in gcases])
     gmism, gerr_kinds = [], 0
     for c, ans in zip(gcases, ganswers):
@@ -747,11 +764,15 @@ def run(ctx):
                     alone_bad.append((d, ["tube %d disconnected: top displacement %.12g, solved alone %.12g" % (tid, got, a)]))
                 break
             tid += n
-        for s in r["subs"]:
-            line, real = rj_case(s, rng)
-            rj_lines.append(line)
-            rj_real.append((d, real))
     pred_bad += alone_bad
+    rj_crash = []
+    for suite, d in descs:
+        try:
+            for line, real in rj_cases(d, rng):
+                rj_lines.append(line)
+                rj_real.append((d, real))
+        except Exception as e:  # noqa
+            rj_crash.append((d, "%s: %s" % (type(e).__name__, str(e)[:100])))
     ctx.obligation("property predicate on every real solve (completes, balance, rigid, alone, k*dd, direct stiffness)",
                    not pred_bad, "%d cases violate; first: %s" % (len(pred_bad), [(describe(p[0]), p[1][:2]) for p in pred_bad[:1]]))
     rj_ans = drv.ask(rj_lines)
@@ -763,8 +784,10 @@ def run(ctx):
         ctx.case(("A", line), nontrivial=True, tag="assembly")
         if not err <= 1e-9:
             rj_bad.append((d, err, line))
+    rj_bad += [(d, float("inf"), msg) for d, msg in rj_crash]
     ctx.obligation("correspondence (A): real fj/RJ == assembleF/assembleJ on Float (rel 1e-9)", not rj_bad,
-                   "%d of %d differ, worst relative difference %.3g; first: %s" % (len(rj_bad), len(rj_lines), worst, [(describe(x[0]), x[1]) for x in rj_bad[:1]]))
+                   "%d of %d differ (%d could not be evaluated), worst relative difference %.3g; first: %s"
+                   % (len(rj_bad), len(rj_lines), len(rj_crash), worst, [(describe(x[0]), x[1]) for x in rj_bad[:1]]))
 
     # ---- (F) full system solve with FEM tubes -----------------------------
     fem_bad = []
